@@ -239,12 +239,8 @@ func c05Prov(r *fw.Run, p *fw.Program) (formB bool) {
 			ru.Fail("ToBinary:ok-return", p.Rel(fn.Pos()), "ToBinary has no success return")
 		}
 		// synthetic guard
-		wantSyn := "(pkg/scalar.Flags).IsSynthetic(invoke.ScalarFlags(assert<pkg/scalar.Scalarable>(P0.dv->V)#0))"
 		found := false
-		for _, c := range fw.CallsTo(fn, "(pkg/scalar.Flags).IsSynthetic") {
-			if e.Of(c) != wantSyn {
-				continue
-			}
+		for _, c := range c05SynTests(fn, e, "P0.dv") {
 			found = true
 			leak := false
 			for _, s := range c05Branch(fn, c, true) {
@@ -261,7 +257,7 @@ func c05Prov(r *fw.Run, p *fw.Program) (formB bool) {
 				"a synthetic value (no bits of its own) reaches the success return of ToBinary")
 		}
 		if !found {
-			ru.Fail("ToBinary:synthetic", p.Rel(fn.Pos()), "ToBinary no longer tests ScalarFlags().IsSynthetic() of the value")
+			ru.Fail("ToBinary:synthetic", p.Rel(fn.Pos()), "ToBinary no longer tests ScalarFlags().IsSynthetic() of the value (inline or through a helper that is true exactly for synthetic scalars)")
 		}
 	}
 
@@ -479,7 +475,7 @@ func c05Range(r *fw.Run, p *fw.Program) {
 // C05.rootbase
 
 func c05RootBase(r *fw.Run, p *fw.Program, formB bool) {
-	ru := r.Rule("C05.rootbase", "RootReader/Range base agreement: decode() rebases every value by decodeRange.Start and points it at the unsliced reader; a root decoded with IsRoot (whose Start InnerRange drops) is decoded from offset 0 of its own reader; nested-root constructors store the nested reader; sub-formats decode d.bitBuf; every other Value.RootReader store is d.bitBuf; the walk's stores are unconditional; a raw nested root has exactly the length of its reader; a caller of decode() only places Range.Start of a nested root and keeps Range.Len/RootReader; AddChild gives every value its Parent (InnerRange tells nested from top-level roots by it)", 33)
+	ru := r.Rule("C05.rootbase", "RootReader/Range base agreement: decode() rebases every value by decodeRange.Start and points it at the unsliced reader; a root decoded with IsRoot (whose Start InnerRange drops) is decoded from offset 0 of its own reader; nested-root constructors store the nested reader; sub-formats decode d.bitBuf; every other Value.RootReader store is d.bitBuf; the walk's stores are unconditional; a raw nested root has exactly the length of its reader; a caller of decode() only places Range.Start of a nested root and keeps Range.Len/RootReader; AddChild gives every value its Parent (InnerRange tells nested from top-level roots by it); every value handed to AddChild already has its RootReader (stored inline or by a stamping helper, or it comes from decode()/fieldDecoder) because the walk does not descend into nested roots", 44)
 
 	dec := c05Anchor(ru, p, "pkg/decode.decode")
 	decW := c05Anchor(ru, p, "pkg/decode.Decode")
@@ -550,6 +546,7 @@ func c05RootBase(r *fw.Run, p *fw.Program, formB bool) {
 		c05DecodeTail(ru, p, dec)
 	}
 	c05AddChildParent(ru, p, formB)
+	c05LinkedHaveReader(ru, p, dec, decW)
 
 	// (c)+(d) stores to Value.IsRoot / Value.RootReader in pkg/decode
 	for _, fn := range c05PkgFns(p, "pkg/decode") {
